@@ -39,7 +39,10 @@ Record pj_input := {
   pj_remote : option pj_remote_ev;     (* None: response carries no event *)
   pj_auth_events : list pj_auth_event;
   pj_store_ok : bool;               (* pseudo IDs: storeMXIDMappings *)
-  pj_check_ok : bool                (* CheckSendJoinResponse(...) == nil *)
+  (* CheckSendJoinResponse(...) == nil, asked of the real library (property C14) for each of the
+     two candidate join events: the one PerformJoin built and sent, and the remote's copy *)
+  pj_check_own : bool;
+  pj_check_remote : bool
 }.
 
 Inductive pj_result :=
@@ -94,7 +97,8 @@ Definition perform_join (i : pj_input) : pj_result :=
             end in
           if negb (contains_create (pj_auth_events i)) then PJError false true
           else if bytes_eqb ver v_pseudo_ids && negb (pj_store_ok i) then PJError false true
-          else if negb (pj_check_ok i) then PJError false true
+          (* the checks run on the event that will be returned *)
+          else if negb (if remote_used then pj_check_remote i else pj_check_own i) then PJError false true
           else PJJoined remote_used in
       if pseudo then
         match pj_sender_id i with
